@@ -1265,11 +1265,19 @@ class Mailbox:
         # request _AND_ if the size of the mailbox changes. These can be
         # sent to any client, idling, executing a command, or otherwise.
         #
+        # NOTE: If a client still has notifications queued (EXPUNGEs it was
+        #       not allowed to receive yet) the EXISTS must queue up behind
+        #       them. If it overtook a queued EXPUNGE the client would end up
+        #       with a message count that differs from ours.
+        #
         notifications = []
         notifications.append(f"* {num_msgs} EXISTS\r\n")
         notifications.append(f"* {num_recent} RECENT\r\n")
         for c in self.clients.values():
-            await c.client.push(*notifications)
+            if c.pending_notifications and not c.idling:
+                c.pending_notifications.extend(notifications)
+            else:
+                await c.client.push(*notifications)
 
         self.num_msgs = num_msgs
         self.num_recent = num_recent
